@@ -29,7 +29,7 @@ def ostr(o):
 
 # TAPParser.Error messages reduced to a kind; an unrecognised wording is the wildcard '?'
 # (a reworded message is not a behaviour change).
-KINDS = [('late', r'after late plan'), ('exceeds', r'exceeds'), ('invdir', r'invalid directive "'),
+KINDS = [('big', r'too large'), ('late', r'after late plan'), ('exceeds', r'exceeds'), ('invdir', r'invalid directive "'),
          ('plan2', r'more than one plan'), ('planskip', r'SKIP directive for plan'),
          ('plandir', r'directive for plan'), ('verpos', r'first line'), ('verlow', r'at least'),
          ('yaml', r'YAML'), ('few', r'Too few'), ('many', r'Too many'), ('dup', r'Duplicate'),
